@@ -128,6 +128,31 @@ def scale_round(acc, scale, shift, mode):
     return np.where(acc >= 0, v, -v)
 
 
+def shift_round(acc, shift, mode):
+    """acc * 2^-shift for a unit multiplier: mode 0 (TFL) ties away from zero, 1 truncate toward zero, 2 (NATURAL) ties up; exact for |acc| < 2^62"""
+    shift = int(shift)
+    if shift == 0:
+        return acc
+    if np.abs(acc).max(initial=0) >= (1 << 62):
+        raise Unmodelled("product beyond 62 bits")
+    half = I64(1) << (shift - 1)
+    if mode == 2:
+        return (acc + half) >> shift
+    if mode == 1:
+        return np.where(acc >= 0, acc >> shift, -((-acc) >> shift))
+    return np.where(acc >= 0, (acc + half) >> shift, -((-acc + half) >> shift))
+
+
+def shift_round_arr(a, b, mode):
+    """element-wise a >> b with per-element shift counts (SHR)"""
+    half = np.where(b > 0, I64(1) << np.maximum(b - 1, 0), 0)
+    if mode == 2:
+        return (a + half) >> b
+    if mode == 1:
+        return np.where(a >= 0, a >> b, -((-a) >> b))
+    return np.where(a >= 0, (a + half) >> b, -((-a + half) >> b))
+
+
 def _tfl_wide(a, s, h):
     import tflref
 
@@ -235,6 +260,18 @@ def decode_weight_volume(mem, f, accel):
 def apply_activation(v, f, mem, accel):
     a = f["activation"]
     v = np.clip(v, a["min"], a["max"])
+    if a["lut_index"] is not None and f["ofm"]["bits"] == 32 and f["ifm"]["bits"] == 8:
+        # 8-bit index, 32-bit entries (softmax's exp table, 1 KB = four 256-byte slots): the value that would have been the 8-bit result (zero point added, clamped to the
+        # activation range) selects the entry; the index is biased by 128 when the activation range is signed.  H-model adopted by the bring-up rule (DESIGN 8.2).
+        base = hw.lut_start_bank(accel, True) * 1024 + a["lut_index"] * 256
+        sh = np.frombuffer(mem[csdec.SHRAM_REGION], np.uint8)
+        if base + 1024 > len(sh):
+            raise SimError("32-bit table at SHRAM offset %d runs past the end of SHRAM" % base)
+        table = sh[base: base + 1024].astype(I64).reshape(256, 4)
+        table = table[:, 0] | (table[:, 1] << 8) | (table[:, 2] << 16) | (table[:, 3] << 24)
+        table = np.where(table >= (1 << 31), table - (1 << 32), table)
+        idx = (v + 128) if a["min"] < 0 else v
+        return table[np.clip(idx, 0, 255)]
     if a["lut_index"] is not None:
         if f["ofm"]["bits"] != 8 or f["ifm"]["bits"] != 8:
             raise Unmodelled("16/32-bit lookup table")
@@ -274,12 +311,19 @@ def run_kernel_op(f, accel, mem):
         # whether and how zero points and scaling apply on the 32-bit paths is not pinned down by anything available here (H6)
         raise Unmodelled("32-bit feature map datapath")
     wide_ok = (kind in ("conv", "depthwise") and o["bits"] == 32 and f["ifm"]["bits"] != 32) or (kind == "elementwise" and f["mode"] == "MUL" and f["ifm"]["bits"] == 32)
+    lut32 = o["bits"] == 32 and f["ifm"]["bits"] == 8 and "activation" in f and f["activation"]["lut_index"] is not None
     if kind == "elementwise" and f["mode"] in ("ADD", "SUB") and f["ifm"]["bits"] == 32 and o["bits"] == 32 and "activation" in f and f["activation"]["lut_index"] is None:
-        # plain 32-bit sum/difference: only with unit operand and output scales (the lowering of SQUARED_DIFFERENCE); anything scaled stays unmodelled
-        wide_ok = f.get("ofm_scale", (1, 0)) == (1, 0) and f["ifm"]["scale_mode"] == 0 and f["opa_scale"][0] == 1 and f["opb_scale"][0] == 1 and o["zero_point"] == 0
+        # plain 32-bit sum/difference: unit operand scales and an output scale that is a pure shift (the lowerings of SQUARED_DIFFERENCE and SOFTMAX); anything scaled stays unmodelled
+        wide_ok = f.get("ofm_scale", (1, 0))[0] == 1 and f["ifm"]["scale_mode"] == 0 and f["opa_scale"][0] == 1 and f["opb_scale"][0] == 1
+    if kind == "elementwise" and f["mode"] in ("ADD", "SUB") and lut32:
+        wide_ok = f.get("ofm_scale", (1, 0)) == (1, 0) and f["ifm"]["scale_mode"] == 0 and f["opa_scale"] == (1, 0) and f["opb_scale"] == (1, 0)  # 8-bit difference indexing a 32-bit table
+    if kind == "elementwise" and f["mode"] in ("SHR", "SHL", "CLZ") and f["ifm"]["bits"] == 32 and f["activation"]["lut_index"] is None:
+        wide_ok = f["ifm"]["zero_point"] == 0 and (o["bits"] == 32 or (f["mode"] == "SHR" and o["bits"] == 8))  # (a 32-bit OFM ignores its zero point register, see MODEL_32BIT)
+    if kind == "pool" and f["mode"] == "REDUCE_SUM" and f["ifm"]["bits"] == 32 and o["bits"] == 32:
+        wide_ok = o["global_scale"] and f["ofm_scale"] == (1, 0) and f["ifm"]["zero_point"] == 0
     if wide and not wide_ok:
         raise Unmodelled("32-bit feature map datapath (%s)" % (f.get("mode") or kind))
-    ofm_zp = 0 if o["bits"] == 32 else o["zero_point"]  # reading used when MODEL_32BIT: a 32-bit OFM carries the raw scaled accumulator
+    ofm_zp = 0 if (o["bits"] == 32 and not lut32) else o["zero_point"]  # reading used when MODEL_32BIT: a 32-bit OFM carries the raw scaled accumulator (a table lookup works on the 8-bit value)
     if kind in ("conv", "depthwise"):
         P, V, iaddr = window_input(mem, f)
         W, bias, scl, shf, extra_reads = decode_weight_volume(mem, f, accel)
@@ -304,7 +348,7 @@ def run_kernel_op(f, accel, mem):
             if not o["global_scale"]:
                 raise Unmodelled("REDUCE_SUM without global scale")
             sc, sh = f["ofm_scale"]
-            v = scale_round(acc, sc, sh, rmode) + o["zero_point"]
+            v = scale_round(acc, sc, sh, rmode) + ofm_zp
         elif mode == "MAX":
             Pm = np.where(V[:, :, None], P, -(1 << 40))
             out = np.full((oh, ow, P.shape[2]), -(1 << 40), I64)
@@ -352,7 +396,27 @@ def run_kernel_op(f, accel, mem):
                 # H-model (bring-up rule, DESIGN 8.2): a 32-bit multiplication applies only the shift of the OFM scale ("for int32 scaling is not supported": the
                 # compiler multiplies by the scale as the second operand and programs the shift alone)
                 sc = 1
-            v = scale_round(a * b, sc, sh, rmode) + ofm_zp
+            v = (shift_round(a * b, sh, rmode) if sc == 1 else scale_round(a * b, sc, sh, rmode)) + ofm_zp
+        elif mode in ("SHR", "SHL", "CLZ"):
+            # 32-bit bit operations of the SOFTMAX lowering (H-model adopted by the bring-up rule): SHR rounds as the OFM rounding mode says, SHL and CLZ are exact
+            if mode == "CLZ":
+                av = np.where(a < 0, a + (1 << 32), a)
+                v = np.asarray([32 - int(t).bit_length() for t in av.ravel()], I64).reshape(av.shape)
+            else:
+                if b is None or (b < 0).any() or (b > 62).any():
+                    raise Unmodelled("%s with a shift operand outside 0..62" % mode)
+                if mode == "SHL":
+                    v = a * (I64(1) << np.minimum(b, 31))
+                    if (np.abs(a) >= (I64(1) << 31)).any():
+                        raise SimError("SHL operand outside the 32-bit range")
+                else:
+                    v = shift_round_arr(a, b, rmode)
+            v = v + (o["zero_point"] if o["bits"] != 32 else 0)
+        elif mode in ("ADD", "SUB") and f["ifm"]["bits"] == 32 and o["bits"] == 32 and not lut32:
+            raw = a + b if mode == "ADD" else a - b
+            if sh and (raw < 0).any():
+                raise Unmodelled("32-bit %s with a rounding shift of a negative sum" % mode)  # only reached by the non-negative half-sum of the softmax reciprocal
+            v = shift_round(raw, sh, 2)
         elif mode in ("ADD", "SUB"):
             sm = f["ifm"]["scale_mode"]
             opa, opa_shift = f["opa_scale"]
@@ -394,7 +458,7 @@ def run_kernel_op(f, accel, mem):
     else:
         raise Unmodelled(kind)
     lo, hi = (-(1 << (o["bits"] - 1)), (1 << (o["bits"] - 1)) - 1) if o["signed"] else (0, (1 << o["bits"]) - 1)
-    if o["bits"] != 32:  # (MODEL_32BIT reading: the 16-bit clamp registers do not apply to a 32-bit OFM)
+    if o["bits"] != 32 or lut32:  # (MODEL_32BIT reading: the 16-bit clamp registers do not apply to a 32-bit OFM - unless a table lookup works on the 8-bit value)
         v = apply_activation(v, f, mem, accel)
     v = np.clip(v, lo, hi)
     write_ofm(mem, f, v)
